@@ -25,6 +25,17 @@ def geoReq (full : Bool) (mode n a d eps degree edges iters draws : String) : St
     if full then s!"{sa}|{showPairs st.edges}|{showDone st.i iters.toNat!}"
     else s!"{sa}|{showDone st.i iters.toNat!}"
 
+/-- round 4: the compiled kernel with the conditions in binary32 (`D`, `eps` integers in units of a
+power of two, any binary32 data) -/
+def geoReqFl (mode n a d eps degree edges iters draws : String) : String :=
+  let c : GeoCfg :=
+    { mode := if mode == "1" then .I else if mode == "2" then .II else .III
+      D := ofIntMat (intMat d), eps := eps.toInt!, degree := ofInts (ints degree) }
+  match geoRunFl rnd32 c iters.toNat! (pairs draws) ⟨ofMat (boolMat a), pairs edges, 0⟩ with
+  | none => "raise:IndexError"
+  | some st =>
+    s!"{showBoolMat (toMat st.A n.toNat! n.toNat!)}|{showPairs st.edges}|{showDone st.i iters.toNat!}"
+
 def ofRatMat (M : List (List Rat)) : Nat → Nat → Rat := fun i j => (M.getD i []).getD j 0
 
 def optRat (s : String) : Option Rat := if s == "-" then none else rat? s
@@ -73,6 +84,34 @@ def answer (toks : List String) : String :=
     | none => "raise:IndexError"
     | some st =>
       s!"{showBoolMat (toMat st.A N N)}|{showPairs (edgeList N A)}|{(edgeList N A).length}|{showDone st.i iters.toNat!}"
+  -- round 4: binary32 conditions / binary64 draws
+  | ["geoF", mode, n, a, d, eps, degree, edges, iters, draws] =>
+    geoReqFl mode n a d eps degree edges iters draws
+  | ["geoFM", mode, n, a, d, eps, iters, draws] =>
+    let N := n.toNat!
+    let A := ofMat (boolMat a)
+    let md : GeoMode := if mode == "1" then .I else if mode == "2" then .II else .III
+    match geoMethodFl rnd32 md (ofIntMat (intMat d)) eps.toInt! N A iters.toNat! (pairs draws) with
+    | none => "raise:IndexError"
+    | some st =>
+      s!"{showBoolMat (toMat st.A N N)}|{showPairs (edgeList N A)}|{(edgeList N A).length}|{showDone st.i iters.toNat!}"
+  | ["geoMD", mode, n, a, d, eps, iters, ks] =>
+    -- u = k / 2^53 (what numpy's generators return); the draw is `floor(fl64(u * E))`
+    let N := n.toNat!
+    let A := ofMat (boolMat a)
+    let md : GeoMode := if mode == "1" then .I else if mode == "2" then .II else .III
+    let E : Int := (edgeList N A).length
+    let dr (k : Nat) : Nat :=
+      (Pyunicorn.Generated.StructC17.geoDrawR rnd64 ((k : Rat) / 9007199254740992) E).toNat
+    let draws := (pairs ks).map fun kk => (dr kk.1, dr kk.2)
+    match geoMethod md (ofIntMat (intMat d)) eps.toInt! N A iters.toNat! draws with
+    | none => "raise:IndexError"
+    | some st =>
+      s!"{showBoolMat (toMat st.A N N)}|{showPairs (edgeList N A)}|{(edgeList N A).length}|{showDone st.i iters.toNat!}"
+  | ["rnd32", xs] => showInts ((ints xs).map rnd32)
+  | ["drawD", ks, e] =>
+    showInts ((nats ks).map fun (k : Nat) =>
+      Pyunicorn.Generated.StructC17.geoDrawR rnd64 ((k : Rat) / 9007199254740992) e.toInt!)
   | ["geoadm", mode, a, d, eps, degree, edges] =>
     let c : GeoCfg :=
       { mode := if mode == "1" then .I else if mode == "2" then .II else .III
